@@ -383,6 +383,7 @@ class BaseModel(Generic[MvalT_co], metaclass=ModelsMeta):
         self._check_not_finished()
         self._complete_frames()
         self.R.enforce()
+        self._complete_predicates()
         self._finished = True
         return self
 
@@ -465,6 +466,16 @@ class BaseModel(Generic[MvalT_co], metaclass=ModelsMeta):
                 if s not in frame.opaques:
                     frame.opaques[s] = unass
         self._is_frame_complete = True
+
+    def _complete_predicates(self):
+        # give every tuple of constants the unassigned value, so that the
+        # extension/anti-extension say what value_of() evaluates
+        unass = self.Meta.unassigned_value
+        for frame in self.frames.values():
+            for pred, interp in frame.predicates.items():
+                for params in product(sorted(self.constants), repeat=pred.arity):
+                    if params not in interp:
+                        interp[params] = unass
 
     def _check_finished(self):
         if not self.finished:
